@@ -84,6 +84,10 @@ def trace_function(fn, kwargs: dict, *, allow_constants=False):
         arg_ids = tuple(ids[id(arg)] for arg in args)
         operations.append((op, arg_ids))
 
+    # The program returns its last value, which must be the traced result.
+    if ids[id(root)] != len(ids) - 1:
+        raise ValueError("Function returns an input or constant unchanged")
+
     return OpProgram(constants, inputs, operations)
 
 
